@@ -292,7 +292,7 @@ Definition judge_network (rec : list Z) : Z :=
     else if (Nat.leb m 4) && negb (sg =? 2) && negb (Bool.eqb (sg =? 1) (graphic_bf m n (support M))) then 102
     else if (v =? 1) && (sg =? 0) then 103
     else if (match w with
-             | WGraph G f c r => check_network_cert m n M G r f c && (v =? 0)
+             | WGraph G f c r => (v =? 0) && check_network_cert m n M G r f c
              | _ => false end) then 107
     else if (match w with
              | WCore rs cs => increasing_in m rs && increasing_in n cs && Nat.leb (length rs) 4 &&
